@@ -50,6 +50,7 @@ type adapter struct {
 	pminer    []int          // identity (1-based) of each prefix block's miner
 	cache     map[string]*universe
 	built     map[string]*types.Block
+	recov     map[string]int // (block hash, signature bytes) -> recovered identity (1-based, 0 = nobody we know): a pure function, memoised
 	u         *universe
 	nut       *node.Node
 	seq       int
@@ -85,6 +86,7 @@ func (a *adapter) init() {
 	a.builder = a.newNode(filepath.Join(a.dir, "builder"))
 	a.cache = map[string]*universe{}
 	a.built = map[string]*types.Block{}
+	a.recov = map[string]int{}
 	if a.t.on {
 		a.buildPrefix()
 	}
@@ -248,17 +250,37 @@ func (a *adapter) project(fl engine.Fields) {
 		// World.Signers maps a recovered node id to its index in w.NodeIDs, which holds every identity (the genesis
 		// deputies and the nodes that become deputies in the next term): a signer is logged as WHO it is, whether or
 		// not it is a deputy of this block's term - that judgement is the monitor's
-		rs, cnt := a.w.Signers(b)
-		out := []int{}
-		for _, r := range rs {
-			out = append(out, r+1) // identities are 1-based in the spec; 0 = not a deputy of any term
-		}
+		out := a.signersOf(b) // identities are 1-based in the spec; 0 = not a deputy of any term
 		sort.Ints(out)
 		signers[strconv.Itoa(id)] = out
-		raw[strconv.Itoa(id)] = cnt
+		raw[strconv.Itoa(id)] = len(b.Confirms)
 	}
 	fl["signers"] = signers
 	fl["nconf"] = raw
+}
+
+// signersOf: the distinct identities recovered from the confirms stored with b (node.World.Signers with a memo: the
+// same stored signatures are read back after every step).
+func (a *adapter) signersOf(b *types.Block) []int {
+	h := b.Hash()
+	seen := map[int]bool{}
+	out := []int{}
+	for _, c := range b.Confirms {
+		k := string(h[:]) + string(c[:])
+		id, ok := a.recov[k]
+		if !ok {
+			id = 0
+			if nodeID, err := c.RecoverNodeID(h); err == nil {
+				id = a.w.DeputyOf(nodeID) + 1
+			}
+			a.recov[k] = id
+		}
+		if !seen[id] {
+			seen[id] = true
+			out = append(out, id)
+		}
+	}
+	return out
 }
 
 func (a *adapter) Apply(s engine.Step) (engine.Fields, error) {
